@@ -145,6 +145,46 @@ func runC07(c *fw.C) {
 		}
 	}
 	c.Obs("sync_replicas_loaded", 1)
+	// the same diff as a replica would run it: the OLD version is read from the
+	// replica's own store (which holds nothing but the old version), the new one
+	// from the source store
+	if c.R.Chance(1, 2) {
+		oldOnly := doubles.NewStore()
+		for nme := range ro {
+			b, _ := e.Store.Get(nme)
+			oldOnly.Put(nme, b)
+		}
+		oe := *e
+		oe.Store, oe.Persist, oe.Cache = oldOnly, oldOnly, nil
+		ot, err := oe.Load(p.Old.Root)
+		if err == nil {
+			added2 := map[string]int{}
+			removed2 := map[string]int{}
+			err = p.New.T.DiffLinks(e.Ctx, ot, func(rem bool, link interface{}) (bool, error) {
+				if s, ok := link.(string); ok {
+					if rem {
+						removed2[s]++
+					} else {
+						added2[s]++
+					}
+				}
+				return true, nil
+			})
+			c.Obs("cross_store_diffs", 1)
+			ctx2 := map[string]string{"relation": p.Relation, "old": p.Old.Kind, "new": p.New.Kind, "stores": "old_on_replica"}
+			if err != nil {
+				c.Violation("C07.node_diff", ctx2, "DiffLinks with the old version read from a replica store failed: %v | %s", err, p.Desc)
+				return
+			}
+			saved := ctx
+			ctx = ctx2
+			ok := check("added", added2, rn, ro) && check("removed", removed2, ro, rn)
+			ctx = saved
+			if !ok {
+				return
+			}
+		}
+	}
 	sym := 0
 	for nme := range rn {
 		if !ro[nme] {
